@@ -104,6 +104,32 @@ CLAIMS = {
              'log-record model; harness',
         technique='Coq proof (encoder/parser round trip by induction over chunks and blocks) + two-stage correspondence',
         ref='DESIGN.md §5 C03'),
+    'C09': dict(
+        text='The 454 decoder rows are regenerated from trace_handlers/*.py on every run (symbolic execution of each handler '
+             'and of its dataclass __str__ into a token language). Coq theorems over the regenerated table: c09_call_structure, '
+             'c09_sweep_positional + c09_position (a numeric parameter at position k reads START word k and NOTHING else, for '
+             'ALL tuples/END records/contexts/hosts), c09_sweep_faithful + c09_faithful_injective (it shows the whole word in an '
+             'injective form, up to a spec-side list of typed narrowings), c09_call_part (call part independent of the END '
+             'record); closed under the global context. String-exact correspondence on every row.',
+        note='trusted: Coq kernel+vm_compute; tr_decoders.py (fail-closed symbolic evaluator) and DecoderDSL.render, both '
+             'validated string-exactly against str(trace) on every row each run; composite decoders are hand models',
+        technique='Coq proof over generated decoder table (dependency analysis lifted by one induction) + correspondence',
+        ref='DESIGN.md §5 C09'),
+    'C10': dict(
+        text='Coq theorems over the regenerated rows: c10_sweep (every decoded BSD syscall other than the property\'s exempt list '
+             'ends in a result shape, and the exempt list is exactly the set that does not), c10_result_text (error word != 0 -> '
+             '", errno: NAME(code)" | ", errno: code" and no success value; == 0 -> no errno, success value = rendering of the END '
+             'return word; for ALL START/END tuples), c10_result_reads_end_only, c10_pipe; closed under the global context.',
+        note='trusted: as C09; serialize_result\'s body is matched textually by the translator against the one the RESULT token '
+             'models', technique='Coq proof over generated decoder table + correspondence', ref='DESIGN.md §5 C10'),
+    'C17': dict(
+        text='Coq theorems over the regenerated handlers dicts, code table and rows: c17_reachable, c17_disjoint, '
+             'c17_all_rows_accounted, c17_twins_registered (X_nocancel registered => X registered by the same handler), '
+             'c17_twin_tokens, c17_twin_rendering (for ALL tuples the renderings differ exactly by the inserted "_nocancel"); '
+             'closed under the global context. Table identity with the running implementation and twin renderings compared.',
+        note='trusted: as C09, plus tr_handlers.py and its independent reading of trace.codes (compared with '
+             'default_trace_codes() each run)', technique='Coq proof (finite sweeps over generated tables, lifted) + correspondence',
+        ref='DESIGN.md §5 C17'),
     'C12': dict(
         text='Coq theorems c12_events/sat_meaning/logs/no_logs_in_events/no_events_in_logs: for EVERY stream and EVERY '
              'configuration the filtered listings equal `filter` of the unfiltered listing by the stated predicate (order and '
